@@ -245,6 +245,10 @@ def run(ctx):
             if op == "call":
                 ev, text, sid = insts[i]
                 env = envs[j] if text == gp.text else None
+                if env is not None and rnd.random() < 0.5:
+                    items = list(env.items())
+                    rnd.shuffle(items)
+                    env = dict(items)  # same record, keywords spelled in another order
                 if env is None:
                     # instance currently holds the other program: call it with that program's input
                     k = rnd.randrange(len(other[2]))
